@@ -10,6 +10,8 @@ CONSTANTS
     MaxNow = 6
     MaxOps = 6
     MaxQ = 2
+    InsertFirst = FALSE
+    WithHold = FALSE
     Hist = FALSE
 INVARIANT Inv
 CHECK_DEADLOCK FALSE
